@@ -1,19 +1,498 @@
 //! Property monitors evaluated directly on the implementation's behaviour (not on the model).
 //! A failure here is a concrete failing input: the op sequence of the current case.
+//! Every monitor checks only what its property states, using the harness's own record of what
+//! was submitted, mined and answered by the simulated node.
 
+use std::collections::{BTreeMap, BTreeSet};
+
+use crate::simnode::{GetR, SendR};
 use crate::tower::*;
 use crate::towerhist::Gen;
 
-pub fn after_op(g: &mut Gen, op: &HOp, out: &Outcome, _log: &[(String, u32)]) {
-    // C11: no handler and no listener aborts
+pub fn slots_of(len: usize) -> u64 {
+    ((len + 2047) / 2048) as u64
+}
+
+#[derive(Default)]
+pub struct MonState {
+    pub prev: Option<DbRow>,
+    /// slots granted by registrations since the user's record appeared
+    pub granted: BTreeMap<u32, u64>,
+    /// trackers whose confirming block was disconnected and that have not been handled yet
+    pub reorged: BTreeSet<(u32, u32)>,
+    /// blocks the locator cache / tx index lack because of disconnections (see C19)
+    pub cache_deficit: usize,
+    pub index_deficit: usize,
+    /// last blob accepted per (loc, user)
+    pub last_accepted: BTreeMap<(u32, u32), Vec<u8>>,
+    /// every dispute (tx number) the tower has ever been shown in a connected block
+    pub disputes_seen: BTreeSet<u32>,
+}
+
+fn decrypts_to(spec: Option<&BlobSpec>, dispute: u32) -> Option<u32> {
+    match spec {
+        Some(BlobSpec::Enc { dispute: d, penalty, .. }) if *d == dispute => Some(*penalty),
+        _ => None,
+    }
+}
+
+fn is_rejected(r: SendR) -> bool {
+    matches!(r, SendR::Rpc(c) if c != -27) || r == SendR::Other
+}
+
+pub fn after_op(
+    g: &mut Gen,
+    op: &HOp,
+    out: &Outcome,
+    log: &[(String, u32)],
+    send: &BTreeMap<u32, SendR>,
+    get: &BTreeMap<u32, GetR>,
+    cur: DbRow,
+) {
+    let cfg = g.sys.cfg;
+    let height = g.sys.height();
+    // ---------------------------------------------------------------- C11: nothing aborts
     if let Outcome::Panicked(what) = out {
         let site = what.split(": ").next().unwrap_or("?").to_string();
+        let site = site.rsplit('/').next().unwrap_or(&site).to_string();
         g.rep.fail("C11", &format!("panic@{site}"), &format!("{} panicked: {what}", crate::towerhist::op_name(op)));
+        return;
     }
-    // C08: every receipt verifies under the tower id over exactly the returned fields
+    let prev = match g.mon.prev.take() {
+        Some(p) => p,
+        None => DbRow { users: BTreeMap::new(), appts: BTreeMap::new(), trackers: BTreeMap::new() },
+    };
+    let blob_spec = |g: &Gen, b: &Vec<u8>| g.sys.blobs.get(b).cloned();
+    let sent_ok = |n: u32| log.iter().any(|(m, t)| m == "send" && *t == n);
+    let verdict = |n: u32| send.get(&n).cloned().unwrap_or(SendR::Ok);
+    let in_mempool = |n: u32| matches!(get.get(&n), Some(GetR::Mempool));
+
+    // ---------------------------------------------------------------- C08: receipts
     match out {
-        Outcome::Registered { receipt_ok: false, .. } => g.rep.fail("C08", "registration_receipt_invalid", "registration receipt does not verify with RegistrationReceipt::verify"),
-        Outcome::Accepted { receipt_ok: false, .. } => g.rep.fail("C08", "appointment_receipt_invalid", "appointment receipt does not verify with AppointmentReceipt::verify"),
+        Outcome::Registered { receipt_ok: false, .. } => g.rep.fail("C08", "registration_receipt_invalid", "registration receipt does not verify with RegistrationReceipt::verify over the returned fields"),
+        Outcome::Accepted { receipt_ok: false, .. } => g.rep.fail("C08", "appointment_receipt_invalid", "appointment receipt does not verify with AppointmentReceipt::verify over (user signature, start block)"),
+        _ => {}
+    }
+    // ---------------------------------------------------------------- memory = disk (C07)
+    for u in g.sys.users_seen.clone() {
+        let mem = g.sys.mem_user(u);
+        let dbv = cur.users.get(&u).map(|x| (x.0, x.2));
+        if mem != dbv {
+            g.rep.fail("C07", "memory_disk_differ", &format!("user u{u}: gatekeeper memory {mem:?} vs users table {dbv:?} (slots, expiry)"));
+        }
+    }
+    let occupied = |db: &DbRow, u: u32| -> u64 { db.appts.iter().filter(|(k, _)| k.1 == u).map(|(_, v)| slots_of(v.0.len())).sum() };
+
+    match op {
+        HOp::Reg { user } => {
+            let before = prev.users.get(user).cloned();
+            match out {
+                Outcome::Registered { slots, start, expiry, .. } => {
+                    // C08: the receipt states what was persisted
+                    if cur.users.get(user) != Some(&(*slots, *start, *expiry)) {
+                        g.rep.fail("C08", "registration_receipt_not_persisted", &format!("receipt ({slots},{start},{expiry}) vs users row {:?}", cur.users.get(user)));
+                    }
+                    // C09: renewal arithmetic
+                    let want = match before {
+                        None => (cfg.0 as u64, height as u64, height as u64 + cfg.1 as u64),
+                        Some((s, st, e)) => (s as u64 + cfg.0 as u64, st as u64, (e as u64 + cfg.1 as u64).min(u32::MAX as u64)),
+                    };
+                    if (*slots as u64, *start as u64, *expiry as u64) != want {
+                        g.rep.fail("C09", "registration_arithmetic", &format!("registered ({slots},{start},{expiry}), promised {want:?} (before: {before:?}, height {height})"));
+                    }
+                    *g.mon.granted.entry(*user).or_insert(0) += cfg.0 as u64;
+                }
+                Outcome::MaxSlots => {
+                    if before.map_or(true, |b| b.0 as u64 + cfg.0 as u64 <= u32::MAX as u64) {
+                        g.rep.fail("C09", "registration_refused", "registration refused although the balance fits");
+                    }
+                }
+                _ => g.rep.fail("C09", "registration_failed", &format!("register answered {out:?}")),
+            }
+            frame_check(g, &prev, &cur, Some(*user), "C06", "register");
+        }
+        HOp::Add { user, sig, .. } | HOp::Get { user, sig, .. } => {
+            let _ = blob_spec;
+            request_checks(g, op, out, *user, sig, &prev, &cur, height);
+        }
+        HOp::Sub { user, sig } => request_checks(g, op, out, *user, sig, &prev, &cur, height),
+        _ => {}
+    }
+
+    // ---------------------------------------------------------------- add: C01 / C02 / C07 / C08
+    if let HOp::Add { user, loc, sig, .. } = op {
+        if let Outcome::Accepted { start, available, expiry, .. } = out {
+            // the requester is whoever the signature recovers to
+            let u = if let SigKind::By(k) = sig { *k } else { *user };
+            let key = (*loc, u);
+            // which blob did we send? (the executor registered it)
+            let sent_blob = cur.appts.get(&key).map(|a| a.0.clone());
+            let before_u = prev.users.get(&u).cloned().unwrap_or((0, 0, 0));
+            let after_u = cur.users.get(&u).cloned().unwrap_or((0, 0, 0));
+            if *start != height {
+                g.rep.fail("C08", "receipt_start_block", &format!("start_block {start}, tower height {height}"));
+            }
+            if *available != after_u.0 || *expiry != after_u.2 {
+                g.rep.fail("C07", "wire_disk_differ", &format!("reply (slots {available}, expiry {expiry}) vs users row {after_u:?}"));
+            }
+            let op_blob_len = if let HOp::Add { blob, .. } = op { g.sys.build_blob(blob).0.len() } else { 0 };
+            let used = prev.appts.get(&key).map(|a| slots_of(a.0.len())).unwrap_or(0) as i64;
+            let req = slots_of(op_blob_len) as i64;
+            if req - used > before_u.0 as i64 {
+                g.rep.fail("C07", "accepted_beyond_balance", &format!("needs {req}-{used} slots, had {}", before_u.0));
+            }
+            if after_u.0 as i64 != before_u.0 as i64 - (req - used) {
+                g.rep.fail("C07", "charge_not_diff", &format!("balance {} -> {}, required {req}, previously used {used}", before_u.0, after_u.0));
+            }
+            let has_row = cur.appts.contains_key(&key);
+            let has_tracker = cur.trackers.contains_key(&key);
+            // the dispute of this locator in the last 6 active blocks
+            let tip = g.sys.chain.len();
+            let in_last6 = g.sys.chain[tip.saturating_sub(6)..].iter().any(|b| b.3.contains(loc));
+            let kept = 6 - g.mon.cache_deficit.min(6);
+            let in_kept = g.sys.chain[tip.saturating_sub(kept)..].iter().any(|b| b.3.contains(loc));
+            let spec = if let HOp::Add { blob, .. } = op { Some(g.sys.build_blob(blob).1) } else { None };
+            let pen = decrypts_to(spec.as_ref(), *loc);
+            if in_last6 && !prev.trackers.contains_key(&key) {
+                // C01: the breach was already confirmed when the appointment was accepted
+                match pen {
+                    Some(p) => {
+                        let answered = sent_ok(p) || log.iter().any(|(m, t)| m == "get" && *t == p) || has_tracker;
+                        if !answered {
+                            let fp = if in_kept { "late_appointment_not_answered" } else { "late_appointment_missed_after_reorg_deficit" };
+                            g.rep.fail("C01", fp, &format!("dispute t{} is in the last 6 blocks, penalty t{} neither submitted nor tracked", loc * 16, p * 16));
+                        } else if sent_ok(p) && verdict(p) == SendR::Ok && !has_tracker {
+                            g.rep.fail("C01", "accepted_penalty_not_tracked", &format!("node took penalty t{} but no tracker", p * 16));
+                        } else if sent_ok(p) && is_rejected(verdict(p)) && (has_row || has_tracker) {
+                            g.rep.fail("C01", "rejected_penalty_kept", &format!("node rejected penalty t{} but the appointment is still held", p * 16));
+                        }
+                    }
+                    None => {
+                        if in_kept && has_row && !prev.appts.contains_key(&key) {
+                            g.rep.fail("C01", "undecryptable_late_appointment_kept", "blob does not decrypt under the confirmed dispute but the appointment was stored");
+                        }
+                    }
+                }
+            } else if !has_row && !has_tracker {
+                g.rep.fail("C08", "receipt_without_record", "receipt issued but the appointment is neither stored nor responded, and its dispute is not in the last 6 blocks");
+            }
+            if has_row && !has_tracker {
+                if let Some(b) = sent_blob {
+                    g.mon.last_accepted.insert(key, b);
+                }
+            }
+            let _ = pen;
+        } else {
+            // a refused submission changes nothing (C06 / C15)
+            if !same_db(&prev, &cur) {
+                g.rep.fail("C06", "refused_request_changed_state", &format!("add answered {out:?} but the database changed"));
+            }
+        }
+    }
+    if let (HOp::Get { user, loc, sig }, Outcome::Appt { blob, .. }) = (op, out) {
+        let u = if let SigKind::By(k) = sig { *k } else { *user };
+        if let Some(want) = g.mon.last_accepted.get(&(*loc, u)) {
+            if want != blob {
+                g.rep.fail("C08", "readback_differs", "get_appointment returned a blob different from the version last accepted");
+            }
+        }
+    }
+    if matches!(op, HOp::Get { .. } | HOp::Sub { .. }) && !same_db(&prev, &cur) {
+        g.rep.fail("C06", "read_request_changed_state", "a read request changed the database");
+    }
+
+    // ---------------------------------------------------------------- C02: every submission is justified
+    if matches!(op, HOp::Conn { .. } | HOp::Add { .. }) {
+        if let HOp::Conn { txs, .. } = op {
+            for t in txs {
+                g.mon.disputes_seen.insert(*t);
+            }
+        }
+        for (m, t) in log.iter() {
+            if m != "send" {
+                continue;
+            }
+            let by_tracker = prev.trackers.values().any(|tr| tr.0 == *t || tr.1 == *t);
+            let candidates: Vec<(&(u32, u32), &(Vec<u8>, u32, String, u32))> =
+                prev.appts.iter().chain(cur.appts.iter()).collect();
+            let mut by_breach = false;
+            for (k, a) in candidates {
+                let spec = g.sys.blobs.get(&a.0).cloned();
+                if decrypts_to(spec.as_ref(), k.0) == Some(*t) && g.mon.disputes_seen.contains(&k.0) {
+                    // the owner must still be held at this height
+                    let owner_ok = match (op, prev.users.get(&k.1)) {
+                        (HOp::Conn { .. }, Some(ui)) => (height as u64) < ui.2 as u64 + cfg.2 as u64,
+                        (HOp::Conn { .. }, None) => false,
+                        _ => true,
+                    };
+                    if owner_ok {
+                        by_breach = true;
+                    }
+                }
+            }
+            // an accepted-but-dropped late appointment (rejected penalty) leaves no row: the op itself justifies it
+            if let HOp::Add { loc, blob, .. } = op {
+                let spec = g.sys.build_blob(blob).1;
+                if decrypts_to(Some(&spec), *loc) == Some(*t) && g.mon.disputes_seen.contains(loc) && matches!(out, Outcome::Accepted { .. }) {
+                    by_breach = true;
+                }
+            }
+            if !by_tracker && !by_breach {
+                g.rep.fail("C02", "unjustified_submission", &format!("sendrawtransaction(t{}) is not the penalty of a triggered, decryptable appointment of a held user, nor a tracker's dispute/penalty", t * 16));
+            }
+        }
+        // a new tracker only after the node has (been given) the penalty
+        for (k, tr) in cur.trackers.iter() {
+            if prev.trackers.contains_key(k) {
+                continue;
+            }
+            let p = tr.1;
+            let given = (sent_ok(p) && verdict(p) == SendR::Ok) || in_mempool(p) || g.sys.chain.iter().any(|b| b.3.contains(&p));
+            if !given {
+                g.rep.fail("C02", "tracker_without_node_having_penalty", &format!("tracker {k:?} created, penalty t{} neither accepted by the node, nor in its mempool, nor confirmed", p * 16));
+            }
+            let spec = cur.appts.get(k).and_then(|a| g.sys.blobs.get(&a.0).cloned());
+            if decrypts_to(spec.as_ref(), tr.0) != Some(p) || tr.0 != k.0 {
+                g.rep.fail("C01", "tracker_wrong_data", &format!("tracker {k:?} holds (t{}, t{}), not the dispute/penalty of its appointment", tr.0 * 16, p * 16));
+            }
+        }
+    }
+
+    // ---------------------------------------------------------------- block connected: C01 / C04 / C07 / C09
+    if let HOp::Conn { txs, .. } = op {
+        let purged: BTreeSet<u32> = prev.users.iter().filter(|(_, ui)| height as u64 >= ui.2 as u64 + cfg.2 as u64).map(|(u, _)| *u).collect();
+        // C09: purge exactly at expiry + grace
+        for (u, ui) in prev.users.iter() {
+            let still = cur.users.contains_key(u);
+            if purged.contains(u) && still {
+                g.rep.fail("C09", "not_purged_at_expiry_plus_grace", &format!("u{u} expiry {} grace {} still present after block {height}", ui.2, cfg.2));
+            }
+            if !purged.contains(u) && !still {
+                g.rep.fail("C09", "purged_early", &format!("u{u} expiry {} grace {} deleted at block {height}", ui.2, cfg.2));
+            }
+        }
+        for (k, _) in cur.appts.iter() {
+            if purged.contains(&k.1) {
+                g.rep.fail("C09", "purged_user_rows_left", &format!("appointment {k:?} of a purged user survives"));
+            }
+        }
+        for u in purged.iter() {
+            g.mon.granted.remove(u);
+        }
+        let reorged_now = g.mon.reorged.clone();
+        for (k, a) in prev.appts.iter() {
+            if purged.contains(&k.1) {
+                continue;
+            }
+            let spec = g.sys.blobs.get(&a.0).cloned();
+            let had_tracker = prev.trackers.get(k);
+            // ---- C01: breaches in this block
+            if txs.contains(&k.0) && had_tracker.is_none() {
+                match decrypts_to(spec.as_ref(), k.0) {
+                    None => {
+                        if cur.appts.contains_key(k) {
+                            g.rep.fail("C01", "undecryptable_breach_kept", &format!("{k:?}: blob does not decrypt under t{} but the appointment is still held", k.0 * 16));
+                        }
+                    }
+                    Some(p) => {
+                        let tip = g.sys.chain.len();
+                        let in_index = g.sys.chain[tip.saturating_sub(101)..tip - 1].iter().any(|b| b.3.contains(&p));
+                        let asked = log.iter().any(|(m, t)| (m == "send" || m == "get") && *t == p);
+                        if !asked && !in_index && !cur.trackers.contains_key(k) {
+                            g.rep.fail("C01", "breach_not_answered", &format!("{k:?}: dispute t{} in block {height}, penalty t{} not submitted", k.0 * 16, p * 16));
+                        }
+                        let took = in_mempool(p) || (sent_ok(p) && verdict(p) == SendR::Ok);
+                        if took && !cur.trackers.contains_key(k) {
+                            g.rep.fail("C01", "accepted_penalty_not_tracked", &format!("{k:?}: node has penalty t{} but no tracker", p * 16));
+                        }
+                        if !in_mempool(p) && !in_index && sent_ok(p) && is_rejected(verdict(p)) && cur.appts.contains_key(k) {
+                            g.rep.fail("C01", "rejected_penalty_kept", &format!("{k:?}: node rejected t{} but the appointment is still held", p * 16));
+                        }
+                    }
+                }
+            }
+            // ---- C01: only that appointment is dropped
+            if had_tracker.is_none() && !txs.contains(&k.0) && cur.appts.get(k) != Some(a) {
+                g.rep.fail("C01", "unrelated_appointment_touched", &format!("{k:?} changed although its dispute is not in block {height}"));
+            }
+            // ---- C04
+            if let Some(tr) = had_tracker {
+                let (_d, p, confirmed, h) = *tr;
+                let in_block = txs.contains(&p);
+                let was_reorged = reorged_now.contains(k);
+                let row_now = cur.trackers.get(k);
+                let refunded = cur.users.get(&k.1).map(|u| u.0 as i64).unwrap_or(0) - prev.users.get(&k.1).map(|u| u.0 as i64).unwrap_or(0);
+                let due = confirmed && !was_reorged && !in_block && height >= h && height - h == 100;
+                // a dispute re-mined in this block makes the Watcher re-handle the breach
+                let rehandled = txs.contains(&k.0);
+                if due {
+                    if row_now.is_some() || cur.appts.contains_key(k) {
+                        g.rep.fail("C04", "not_completed_at_100", &format!("{k:?} confirmed at {h}, block {height}: still tracked"));
+                    }
+                } else if row_now.is_none() && !rehandled {
+                    // dropped without completion: only a rejected re-submission explains it, and never with a refund
+                    let resent_rejected = sent_ok(p) && is_rejected(verdict(p)) || (sent_ok(tr.0) && is_rejected(verdict(tr.0)));
+                    if !resent_rejected {
+                        g.rep.fail("C04", "tracker_dropped_without_cause", &format!("{k:?} (status {}:{h}) vanished at block {height}", if confirmed { 'C' } else { 'M' }));
+                    }
+                }
+                if in_block {
+                    if let Some(r) = row_now {
+                        if !(r.2 && r.3 == height) {
+                            g.rep.fail("C04", "confirmation_not_recorded", &format!("{k:?}: penalty mined at {height}, status {:?}", (r.2, r.3)));
+                        }
+                    }
+                } else if was_reorged && row_now.is_some() || (was_reorged && !rehandled) {
+                    // first connection after the reorg: dispute, then penalty, are re-announced
+                    if !sent_ok(tr.0) {
+                        g.rep.fail("C04", "reorged_dispute_not_resubmitted", &format!("{k:?}: confirming block disconnected, dispute t{} not re-sent at {height}", tr.0 * 16));
+                    } else if !is_rejected(verdict(tr.0)) && !sent_ok(p) {
+                        g.rep.fail("C04", "reorged_penalty_not_resubmitted", &format!("{k:?}: penalty t{} not re-sent at {height}", p * 16));
+                    }
+                } else if !confirmed && !was_reorged && height >= h + 6 && !rehandled {
+                    if !sent_ok(p) {
+                        g.rep.fail("C04", "stale_penalty_not_rebroadcast", &format!("{k:?}: in mempool since {h}, block {height}, no re-submission"));
+                    }
+                } else if !confirmed && !was_reorged && height < h + 6 && !rehandled && sent_ok(p) && !prev.trackers.iter().any(|(k2, t2)| k2 != k && t2.1 == p) {
+                    g.rep.fail("C04", "rebroadcast_too_early", &format!("{k:?}: in mempool since {h}, re-sent at {height}"));
+                }
+                // refund only on completion
+                let others_completed: i64 = prev.trackers.iter().filter(|(k2, t2)| k2.1 == k.1 && *k2 != k && t2.2 && !reorged_now.contains(*k2) && !txs.contains(&t2.1) && height >= t2.3 && height - t2.3 == 100)
+                    .map(|(k2, _)| prev.appts.get(k2).map(|a| slots_of(a.0.len()) as i64).unwrap_or(0)).sum();
+                let own = if due { slots_of(a.0.len()) as i64 } else { 0 };
+                if refunded != own + others_completed {
+                    g.rep.fail("C04", "refund_mismatch", &format!("u{}: balance changed by {refunded} at block {height}, completions are worth {}", k.1, own + others_completed));
+                }
+            }
+        }
+        // confirmed only in a block of the active chain (once the update has been processed)
+        for (k, tr) in cur.trackers.iter() {
+            if tr.2 {
+                let ok = g.sys.chain.iter().any(|b| b.2 == tr.3 && b.3.contains(&tr.1));
+                if !ok {
+                    g.rep.fail("C04", "confirmed_in_non_active_block", &format!("{k:?}: recorded as confirmed at {} but the active block at that height does not contain t{}", tr.3, tr.1 * 16));
+                }
+            }
+        }
+        g.mon.reorged.clear();
+        g.mon.cache_deficit = g.mon.cache_deficit.saturating_sub(1);
+        g.mon.index_deficit = g.mon.index_deficit.saturating_sub(1);
+    }
+    if let HOp::Disc = op {
+        // `height` is already the parent's: the disconnected block had height + 1
+        for (k, tr) in cur.trackers.iter() {
+            if tr.2 && tr.3 == height + 1 {
+                g.mon.reorged.insert(*k);
+            }
+        }
+        g.mon.cache_deficit = (g.mon.cache_deficit + 1).min(6);
+        g.mon.index_deficit = (g.mon.index_deficit + 1).min(100);
+        if !same_db(&prev, &cur) {
+            g.rep.fail("C04", "disconnect_changed_database", "block_disconnected changed the database");
+        }
+    }
+
+    // ---------------------------------------------------------------- C07: conservation
+    for (u, ui) in cur.users.iter() {
+        let g_u = *g.mon.granted.get(u).unwrap_or(&0);
+        let total = ui.0 as u64 + occupied(&cur, *u);
+        if total > g_u {
+            g.rep.fail("C07", "slots_created", &format!("u{u}: available {} + occupied {} > granted {g_u}", ui.0, occupied(&cur, *u)));
+        }
+        if let Some(pu) = prev.users.get(u) {
+            let before = pu.0 as u64 + occupied(&prev, *u);
+            let rows_gone = prev.appts.keys().any(|k| k.1 == *u && !cur.appts.contains_key(k));
+            let reg = matches!((op, out), (HOp::Reg { user }, Outcome::Registered { .. }) if user == u);
+            let accepted_add = matches!((op, out), (HOp::Add { user, sig, .. }, Outcome::Accepted { .. }) if (if let SigKind::By(k) = sig { k } else { user }) == u);
+            let want = before + if reg { cfg.0 as u64 } else { 0 };
+            if total != want && !(total < want && (rows_gone || accepted_add)) {
+                g.rep.fail("C07", "slots_not_conserved", &format!("u{u}: available+occupied {before} -> {total} over {}", crate::towerhist::op_name(op)));
+            }
+        }
+    }
+    g.mon.prev = Some(cur);
+}
+
+fn same_db(a: &DbRow, b: &DbRow) -> bool {
+    a.users == b.users && a.appts == b.appts && a.trackers == b.trackers
+}
+
+/// nothing owned by anybody but `actor` changed
+fn frame_check(g: &mut Gen, prev: &DbRow, cur: &DbRow, actor: Option<u32>, prop: &str, what: &str) {
+    let users_a: BTreeMap<_, _> = prev.users.iter().filter(|(u, _)| Some(**u) != actor).collect();
+    let users_b: BTreeMap<_, _> = cur.users.iter().filter(|(u, _)| Some(**u) != actor).collect();
+    let ap_a: BTreeMap<_, _> = prev.appts.iter().filter(|(k, _)| Some(k.1) != actor).collect();
+    let ap_b: BTreeMap<_, _> = cur.appts.iter().filter(|(k, _)| Some(k.1) != actor).collect();
+    let tr_a: BTreeMap<_, _> = prev.trackers.iter().filter(|(k, _)| Some(k.1) != actor).collect();
+    let tr_b: BTreeMap<_, _> = cur.trackers.iter().filter(|(k, _)| Some(k.1) != actor).collect();
+    if users_a != users_b || ap_a != ap_b || tr_a != tr_b {
+        g.rep.fail(prop, "other_users_data_changed", &format!("{what} by {actor:?} changed another user's record, appointments or trackers"));
+    }
+}
+
+fn request_checks(g: &mut Gen, op: &HOp, out: &Outcome, user: u32, sig: &SigKind, prev: &DbRow, cur: &DbRow, height: u32) {
+    // who does the signature recover to, over exactly the message the request defines?
+    // (the executor printed it; recompute the essentials here)
+    let success = matches!(out, Outcome::Accepted { .. } | Outcome::Appt { .. } | Outcome::Tracker { .. } | Outcome::Subscription { .. });
+    let notfound = matches!(out, Outcome::Error { grpc_code, .. } if *grpc_code == tonic::Code::NotFound as i32);
+    let signer: Option<u32> = match sig {
+        SigKind::Valid => Some(user),
+        SigKind::By(k) => Some(*k),
+        _ => None, // recovers to nobody we know, or not at all
+    };
+    let registered = signer.and_then(|s| prev.users.get(&s).cloned());
+    if success || notfound {
+        match registered {
+            None => g.rep.fail("C06", "unauthenticated_request_served", &format!("{op:?} served although the signature does not recover to a registered user")),
+            Some(ui) => {
+                if height >= ui.2 {
+                    g.rep.fail("C09", "served_after_expiry", &format!("request served at height {height}, expiry {}", ui.2));
+                }
+            }
+        }
+    } else if let Outcome::Error { msg, .. } = out {
+        if let Some(ui) = registered {
+            if height >= ui.2 {
+                if *msg != format!("Your subscription expired at {}", ui.2) {
+                    g.rep.fail("C09", "expired_error_wrong", &format!("expired subscription (expiry {}), answer: {msg}", ui.2));
+                }
+            } else if msg.starts_with("Your subscription expired") {
+                g.rep.fail("C09", "refused_before_expiry", &format!("height {height} < expiry {} but: {msg}", ui.2));
+            } else if matches!(op, HOp::Get { .. } | HOp::Sub { .. }) {
+                g.rep.fail("C06", "valid_request_refused", &format!("valid request refused: {msg}"));
+            }
+        }
+    }
+    // isolation: whatever the outcome, nobody else's data moved; replies carry only the signer's data
+    let actor = signer.filter(|s| prev.users.contains_key(s));
+    frame_check(g, prev, cur, actor, "C06", "request");
+    match (out, actor) {
+        (Outcome::Subscription { locs, slots, expiry }, Some(a)) => {
+            let own: BTreeSet<u32> = cur.appts.keys().filter(|k| k.1 == a).map(|k| k.0).collect();
+            let got: BTreeSet<u32> = locs.iter().cloned().collect();
+            if own != got {
+                g.rep.fail("C06", "subscription_info_foreign_data", &format!("locators {got:?} vs own {own:?}"));
+            }
+            if cur.users.get(&a).map(|u| (u.0, u.2)) != Some((*slots, *expiry)) {
+                g.rep.fail("C07", "wire_disk_differ", "get_subscription_info differs from the users row");
+            }
+        }
+        (Outcome::Appt { blob, tsd }, Some(a)) => {
+            if let HOp::Get { loc, .. } = op {
+                match cur.appts.get(&(*loc, a)) {
+                    Some(row) if row.0 == *blob && row.1 == *tsd => {}
+                    _ => g.rep.fail("C06", "appointment_foreign_data", "get_appointment returned data that is not the requester's stored appointment"),
+                }
+            }
+        }
+        (Outcome::Tracker { dispute, penalty }, Some(a)) => {
+            if let HOp::Get { loc, .. } = op {
+                match cur.trackers.get(&(*loc, a)) {
+                    Some(row) if row.0 == *dispute && row.1 == *penalty => {}
+                    _ => g.rep.fail("C06", "tracker_foreign_data", "get_appointment returned a tracker that is not the requester's"),
+                }
+            }
+        }
         _ => {}
     }
 }
